@@ -142,7 +142,11 @@ theorem hook_iff (a b : RA) : (handleRA a b).2 = true ↔ verifyRAs a b ≠ [] :
   unfold handleRA
   cases verifyRAs a b <;> simp
 
-theorem counted_once (a b : RA) : (handleRA a b).1 = specProblems a b := by
+/-- What is logged and counted is exactly the specification's list: one entry per differing
+    (own option, received option) pair and label — so a label's count is the number of such pairs
+    (for an own or received RA that repeats a prefix, route or DNS option this is more than one
+    per option: see the recorded finding on self-inconsistent RAs). -/
+theorem reports_are_spec (a b : RA) : (handleRA a b).1 = specProblems a b := by
   unfold handleRA; exact verify_eq_spec a b
 
 /-! ### nothing for a field or option absent on either side -/
